@@ -25,6 +25,11 @@ pub fn mode_of(base: u64, family: Family, idx: u64) -> (Mode, u64) {
             let (cause, pos) = crate::families::c07x_point(idx % per);
             (Mode::Prefix(vec![cause, pos], seed), seed)
         }
+        Family::C16X => {
+            // every point of the enumeration, round after round; each execution has its own schedule seed
+            let seed = run_seed(base, family, idx);
+            (Mode::Prefix(crate::families::c16x_point(idx % crate::families::c16x_total()), seed), seed)
+        }
         _ => {
             let seed = run_seed(base, family, idx);
             (Mode::Search(seed), seed)
